@@ -35,6 +35,18 @@ func main() {
 		os.Exit(cmdWorker(os.Args[2:]))
 	case "replay":
 		os.Exit(cmdReplay(os.Args[2:]))
+	case "conform": // fxmc conform <ID> <tier> <job> <depth> <max>: development aid, prints the divergences
+		c := registry.Get(os.Args[2])
+		j, _ := strconv.Atoi(os.Args[4])
+		d, _ := strconv.Atoi(os.Args[5])
+		m, _ := strconv.Atoi(os.Args[6])
+		explore.Verbose = os.Getenv("FXMC_VERBOSE") != ""
+		explore.NoExclusions = os.Getenv("FXMC_NOEXCL") != ""
+		v, st, div := explore.Conformance(c.Jobs(os.Args[3])[j].Spec, d, m, 0, 1)
+		fmt.Printf("validated=%d steps=%d divergences=%d\n", v, st, len(div))
+		for _, x := range div {
+			fmt.Println(" ", x)
+		}
 	case "list":
 		ids := registry.IDs()
 		sort.Strings(ids)
@@ -87,6 +99,23 @@ func cmdWorker(args []string) int {
 		res.Shard = *shard
 	} else {
 		res = explore.Run(j.Spec, explore.Options{Depth: j.Depth, Shard: *shard, Shards: *shards, ShardDepth: j.ShardDepth, Deadline: dl})
+		if !j.NoConform && os.Getenv("FXMC_NOCONFORM") == "" {
+			// bind the harness shortcuts to the real ABCI path: op sequences of this job replayed inside real blocks
+			cd, per := 3, 4
+			if *tier == "thorough" {
+				cd, per = 4, 12
+			}
+			if cd > j.Depth {
+				cd = j.Depth
+			}
+			v, steps, div := explore.Conformance(j.Spec, cd, per, *shard, *shards)
+			if res.Extra == nil {
+				res.Extra = map[string]float64{}
+			}
+			res.Extra["traces_validated"] += float64(v)
+			res.Extra["conformance_steps"] += float64(steps)
+			res.Conformance = div
+		}
 	}
 	// digests go to a side file (8 bytes each)
 	f, err := os.Create(*out + ".dig")
@@ -264,6 +293,10 @@ func cmdCheck(args []string) int {
 			}
 			for _, v := range r.Violations {
 				viols = append(viols, replayFile{Property: id, Tier: *tier, Job: ji, JobName: j.Name, Violation: v})
+			}
+			for _, d := range r.Conformance {
+				fmt.Println("HARNESS-ERROR conformance: emulated and real-block replay disagree:", firstLines(d, 3))
+				broken = true
 			}
 			db, _ := os.ReadFile(filepath.Join(tmp, fmt.Sprintf("j%d-s%d.json.dig", ji, s)))
 			for i := 0; i+8 <= len(db); i += 8 {
